@@ -275,6 +275,12 @@ FINDINGS = [
          what="a statement written after ';' on the closing line of a multi-line docstring / parenthesised import vanished with the blanked lines", cases=[]),
     dict(id="KF-C07-keyword-prefixed-spacing", property="C07", status="fixed", commit="997461e",
          what="optional spaces changed the outcome for statements whose first name starts like a continuation keyword (else_led . on ( ) rejected, led . on ( ) accepted)", cases=[]),
+    dict(id="KF-C20-button-handler-reentry", property="C20", status="fixed", commit="1a287b4",
+         what="a Button on_click handler polling its own button re-entered itself until RecursionError; a handler that raised left the edge to fire again", cases=[]),
+    dict(id="KF-C20-map-float-zero-span", property="C20", status="fixed", commit="162517b",
+         what="Utils.map(1, 1e16, 10**16 + 1, 0, 1) raised ZeroDivisionError instead of refusing the zero-width range with ValueError", cases=[]),
+    dict(id="KF-C20-core-edge-values", property="C20", status="fixed", commit="043384b",
+         what="Core.analog_write(pin, inf) raised OverflowError instead of clamping; pin names like '\u00b2' raised ValueError in every Core function", cases=[]),
     dict(id="KF-C14-lcd-rebind", property="C14", status="open", commit=None,
          what="one name bound first to a parallel LCD and later to an I2C LCD (or the reverse): both libraries are requested, but the emitter keeps only the first display (one header, one object); outside the documented style, like KF-C05-rebind",
          cases=c14_rebind_cases()),
